@@ -138,6 +138,11 @@ class SymFrame:
         cols = self.__dict__.get("cols", {})
         if name in cols:
             return self._col(cols[name])
+        if not name.startswith("_"):
+            import pandas
+            if hasattr(pandas.DataFrame, name):
+                # a real DataFrame has this: not modelled is an honest 'cannot analyse', not an error of the code
+                raise Unsupported(f"DataFrame.{name} is not modelled")
         raise AttributeError(name)
 
     def _labelled(self):
